@@ -197,6 +197,95 @@ def network(rng, n, slots, byz_count=1, inflate=False):
     return {"n": n, "nodes": n, "self": list(range(n)), "byz": byz, "inflated": inflate, "ops": t.ops}
 
 
+def chain_scenario(rng, phases):
+    """Scenario for the chain-side engine (real ChainService + recording consensus stub with a
+    scripted LIB): ops ["B", id, parent], ["L", libNo], ["D", id].  Parents are always delivered
+    and accepted before children (the real chain service parks orphans and connects them later;
+    that path is C05/C07's)."""
+    blocks = {0: (None, 0)}
+    ops = []
+    nid = [1]
+    lib = [0]
+    main = [0]
+    accepted = {0}
+
+    def on_main(i):
+        no = blocks[i][1]
+        return no < len(main) and main[no] == i
+
+    def mk(parent):
+        i = nid[0]
+        nid[0] += 1
+        blocks[i] = (parent, blocks[parent][1] + 1)
+        ops.append(["B", i, parent])
+        return i
+
+    def deliver(i):
+        ops.append(["D", i])
+        par, no = blocks[i]
+        if i in accepted:
+            return
+        if no <= lib[0]:
+            return
+        accepted.add(i)
+        if par == main[-1]:
+            main.append(i)
+        elif no > blocks[main[-1]][1]:
+            br, new = i, []
+            while not on_main(br):
+                new.append(br)
+                br = blocks[br][0]
+            if blocks[br][1] >= lib[0]:
+                del main[blocks[br][1] + 1:]
+                main.extend(reversed(new))
+
+    for _ in range(phases):
+        for _ in range(rng.randrange(1, 6)):
+            deliver(mk(main[-1]))
+        if rng.random() < 0.6:
+            lib[0] = rng.randrange(lib[0], len(main))
+            ops.append(["L", lib[0]])
+        # fork from an accepted main-chain block around the LIB
+        lo = max(0, lib[0] - 2)
+        root = main[rng.randrange(lo, len(main))]
+        tip = root
+        want = len(main) - 1 - blocks[root][1] + rng.randrange(0, 3)
+        for _ in range(want):
+            if blocks[tip][1] + 1 <= lib[0]:
+                # the child would be refused by the LIB rule: deliver it once, do not extend it
+                deliver(mk(tip))
+                break
+            tip = mk(tip)
+            deliver(tip)
+            if rng.random() < 0.2:
+                deliver(mk(main[-1]))      # the main chain grows meanwhile
+        if rng.random() < 0.3:
+            deliver(rng.choice(sorted(accepted)))   # duplicate
+        if rng.random() < 0.5 and len(main) - 1 > lib[0] + 1:
+            # veto shape: a side branch stored while the LIB is low, the LIB then rises above its
+            # root, and the branch outgrows the main chain
+            rno = rng.randrange(lib[0], len(main) - 2)
+            tip = main[rno]
+            side_len = 0
+            while blocks[tip][1] + 1 < len(main) - 1 or side_len == 0:
+                tip = mk(tip)
+                deliver(tip)
+                side_len += 1
+                if side_len > 8:
+                    break
+            if rno + 1 <= len(main) - 1 and side_len <= 8:
+                lib[0] = rng.randrange(rno + 1, min(blocks[tip][1], len(main) - 1) + 1)
+                ops.append(["L", lib[0]])
+                for _ in range(3):
+                    tip = mk(tip)
+                    deliver(tip)
+    return {"chain": True, "ops": ops}
+
+
+def generate_chain(rng, quick):
+    return [chain_scenario(rng, rng.randrange(2, 6)) for _ in range(12 if quick else 150)]
+
+
 def generate(rng, quick):
     sc = []
     # exhaustive-ish small family: round robin for every producer count, restart after every block
